@@ -164,9 +164,9 @@ class C08(Check):
                 if s.tag == 'iterate':
                     kind = s.msg[s.msg.find('(') + 1:s.msg.rfind(')')]
                     exit_kind = kind
-                    sur = sum(s.vote[c] - s.q for c, x in s.st.items() if x == 'elected')
+                    sur = max(0, sum(s.vote[c] - s.q for c, x in s.st.items() if x == 'elected'))     # the total surplus is never taken below zero
                     if s.surplus != sur:
-                        viol('surplus-value', 'recorded surplus %s, sum over elected of tally-quota is %s' % (s.surplus, sur), s)
+                        viol('surplus-value', 'recorded surplus %s, sum over elected of tally-quota (not below 0) is %s' % (s.surplus, sur), s)
                     if kind == 'omega':
                         nontriv = True
                         if not s.surplus <= omega:
